@@ -27,6 +27,30 @@ PROPS["C03"] = {
     "assumptions": ["all time reads of the limiter go through internal/holsterv4/clock", "only forward clock steps"],
 }
 
+PROPS["C13"] = {
+    "harness": "limsim", "test": "TestC13", "quick_s": 30, "thorough_s": 900, "batch": 100,
+    "rule": "one evaluation = one simulated history on two real TokenLimiters in lock-step under the simulated clock: limiter B receives the history of limiter A minus "
+            "every refused request that is not the first access of its source at its instant; plus retry-after-advertised-delay probes (source silent, other sources and the "
+            "clock proceed), idle-refill probes and amount>burst probes; non-trivial = at least one refused request was dropped from the twin and at least one request admitted; "
+            "distinct = hash of the (source,time,amount,answer) sequence",
+    "technique": "deterministic simulation: twin-run differential over seeded histories on a simulated clock (refused requests removed from the twin must change nothing), plus scheduled retry/idle probes at exact simulated instants",
+    "level_text": "seeded search over histories, multi-rate configurations and clock steps of the real TokenLimiter; the differential oracle needs no model of the bucket arithmetic; sampled, not exhaustive",
+    "level_note": "trusted: frozen clock as only time source, rapid; the twin argument assumes only that no quota can refill between two accesses at the same instant",
+    "assumptions": ["only forward clock steps", "sources stay within capacity (C14 covers eviction)"],
+}
+
+PROPS["C14"] = {
+    "harness": "limsim", "test": "TestC14", "quick_s": 30, "thorough_s": 900, "batch": 100,
+    "rule": "one evaluation = one simulated run in one of four modes: rate-projection (shared TokenLimiter vs one limiter per source in lock-step on the simulated clock, sources within capacity), "
+            "rate-eviction (capacity 1-4, up to 3x as many sources; model: each insertion into a full limiter forgets exactly the oldest tracked source; every access compared with a per-source twin that is "
+            "reset when the model says the source was forgotten), conn-twin (shared ConnLimiter vs per-source ConnLimiter, same arrivals/finishes/panics), conn-fine (fine-grained schedules, porcupine with the "
+            "model partitioned by source); non-trivial = requests of different sources interleaved with a rejection / at least one eviction / two sources in flight at once; distinct = run digest",
+    "technique": "deterministic simulation: projection (non-interference) differential against per-source twin limiters in lock-step on the simulated clock and scheduler; eviction model for over-capacity workloads; porcupine partitioned by source for fine-mode connection-limiter histories",
+    "level_text": "seeded search over interleaved multi-source histories, capacities and schedules of the real TokenLimiter/ConnLimiter; sampled, not exhaustive",
+    "level_note": "trusted: simrt, frozen clock, rapid, porcupine; the over-capacity workload keeps creation order equal to last-use order and accesses of different sources at least one second apart, so that 'nearest to expiry' is unambiguous at the ttl map's one-second granularity",
+    "assumptions": ["only forward clock steps", "over-capacity scenario spans < 5 simulated minutes with periods >= 1 min (no real expiry interferes)"],
+}
+
 PENDING = "check not built yet in this session (planned, see DESIGN.md section 4); not claimed until its harness exists"
 NOT_APPLICABLE = {pid: PENDING for pid in ["C%02d" % i for i in range(1, 21)]}
 NOT_APPLICABLE["C19"] = ("pure function of one request's RemoteAddr/Host/header to a token: no schedule, clock, fault, I/O or multi-party behaviour for a "
